@@ -23,8 +23,8 @@ LEAN_MODULES = ["MpfVerif.Props.C07"]
 PROPS_FILE = "MpfVerif/Props/C07.lean"
 GEN = []
 MANIFEST = {
-  "text": "Proof on a Lean model of Mode.start/_started/_mode_started_callback/stop/_stopped/_mode_stopped_callback, ModeController.set_mode_state and the three registries (event handlers, switch handlers, delays; every entry tagged with its owning mode and the mechanism that removes it) with every scheduler choice (which pending callback runs next, what user code registers when) an input: for ALL op sequences the lifecycle events posted for a mode form a prefix of (will_start starting started will_stop stopping stopped)*, active_modes is duplicate-free, contains exactly the modes whose active flag is set and is strictly sorted by (priority, name) descending, and whenever a mode's stop completes (_mode_stopped_callback, no newer start under way) no entry owned by it is left in any registry while entries of other modes are untouched, hence any number of complete cycles restores the registries; accepted starts/stops become pending steps that are enabled. The model is tied to mpf/core/mode.py and mode_controller.py on every check: generated mode sets run on a real machine, the observed call schedule is replayed on the Lean driver (not-enabled = disagreement), posted events, flags, active_modes and canonical registry dumps are compared at every quiescent point; an independent oracle checks the three clauses of the property on the real machine.",
-  "note": "Trusted: Lean kernel + {propext, Classical.choice, Quot.sound}; the hand-written model Model/Mode.lean (validated only by the differential runs); the event bus (C01/C02) is not re-modelled: which callback runs when is an input. Mode footprints (which handlers a configuration registers in start / on started and which mechanism removes them) are calibrated on the real machine, not derived. Known findings: a start accepted between _stopped and _mode_stopped_callback (e.g. start_events: mode_<n>_stopped) is stripped of its handlers by the pending callback; a stop requested from a mode_<n>_started handler runs mode_stop before mode_start.",
+  "text": "Proof on a Lean model of Mode.start/_started/_mode_started_callback/stop/_stopped/_mode_stopped_callback, ModeController.set_mode_state and the three registries (event handlers, switch handlers, delays; every entry tagged with its owning mode and the mechanism that removes it) with every scheduler choice (which pending callback runs next, what user code registers when) an input: for ALL op sequences the lifecycle events posted for a mode form a prefix of (will_start starting started will_stop stopping stopped)*, active_modes is duplicate-free, contains exactly the modes whose active flag is set and is strictly sorted by (priority, name) descending, and whenever a mode's stop completes (its cleanup runs, in _mode_stopped_callback or at the beginning of a restart requested from a mode_<n>_stopped handler) no entry of the stopped run owned by it is left in any registry (a restarted mode owns exactly its fresh footprint and the late callback of the previous stop touches nothing) while entries of other modes are untouched, hence any number of complete cycles restores the registries; accepted starts/stops become pending steps that are enabled. The model is tied to mpf/core/mode.py and mode_controller.py on every check: generated mode sets run on a real machine, the observed call schedule is replayed on the Lean driver (not-enabled = disagreement), posted events, flags, active_modes and canonical registry dumps are compared at every quiescent point; an independent oracle checks the three clauses of the property on the real machine.",
+  "note": "Trusted: Lean kernel + {propext, Classical.choice, Quot.sound}; the hand-written model Model/Mode.lean (validated only by the differential runs); the event bus (C01/C02) is not re-modelled: which callback runs when is an input. Mode footprints (which handlers a configuration registers in start / on started and which mechanism removes them) are calibrated on the real machine, not derived. Not claimed: a stop requested from a mode_<n>_started handler runs mode_stop before mode_start when mode_<n>_stopping has no handlers (custom mode code only).",
   "technique": "Lean 4 theorems (invariants by induction over op sequences) on a hand model + schedule-replaying differential correspondence with real modes + independent oracle",
   "translated": False,
  }
@@ -45,8 +45,7 @@ TRUSTED = [
 ]
 ASSUMPTIONS = ["handlers, delays and switch handlers registered on behalf of a mode are registered between its start() and "
                "its _mode_stopped_callback (mode code does not register things on a mode that is not running)",
-               "no exception escapes a handler; the machine is not shutting down",
-               "a mode is not started again before the _mode_stopped_callback of its previous run (known finding otherwise)"]
+               "no exception escapes a handler; the machine is not shutting down"]
 
 GRID = 0.125
 PHASES = ["will_start", "starting", "started", "will_stop", "stopping", "stopped"]
@@ -108,6 +107,13 @@ accruals:
       - x_{n}
       - y_{n}
     events_when_complete: a_{n}_done
+""",
+    "timeout": """
+counters:
+  c_{n}:
+    count_events: cnt_{n}
+    count_complete_value: 3
+    logic_block_timeout: 2s
 """,
     "gamey": """
 shots:
@@ -244,7 +250,8 @@ def dump_sw(machine):
 def dump_dl(machine):
     out = []
     for i, dm in enumerate(getattr(machine, "_c07_dms", [])):
-        for name, (_, cb) in dm.delays.items():
+        for name, ent in dm.delays.items():
+            cb = ent[1]        # (handle, callback) or (handle, callback, kwargs)
             if cbname(cb) != "QueuedEvent.clear":       # the harness' own "clear later" timers
                 out.append((i, cbname(cb)))
     return sorted(out)
@@ -300,7 +307,7 @@ class Real:
             g = (not mode.config['mode']['game_mode']) or bool(self.machine.game and mode.player)
             info = (mp if isinstance(mp, int) else None, 1 if "queue" in kw else 0, 1 if g else 0)
             if self.pend_cb[mode.name] > 0 and g and not mode._active and not mode._starting:
-                self.restarted = mode.name      # accepted between _stopped and _mode_stopped_callback (known finding)
+                self.restarted = mode.name      # accepted between _stopped and _mode_stopped_callback (repaired: the start finishes the previous stop first)
         self.L.append(("call", name, mode.name, info, len(self.depth)))
         self.depth.append(name)
 
@@ -506,14 +513,14 @@ def run_real(case):
 # ---------------------------------------------------------------------------------------------------------------------
 # oracle: the three clauses of the property, on the implementation log only
 # ---------------------------------------------------------------------------------------------------------------------
-KNOWN_SIGS = ("restart-in-stopped-handler",)
+KNOWN_SIGS = ()
 KNOWN_AFTER_RESTART = ("stop-event-ignored", "registry-leak", "fired-after-stop", "start-not-completed", "stop-not-completed")
 
 
 def oracle(case, real, crash):
     res = oracle0(case, real, crash)
-    if res is not None and real is not None and real.restarted and res[0].startswith(KNOWN_AFTER_RESTART):
-        return "restart-in-stopped-handler", dict(res[1], seen_as=res[0], mode=real.restarted)
+    if res is not None and real is not None and real.restarted:
+        res = (res[0], dict(res[1], restarted_in_stopped_handler=real.restarted))
     return res
 
 
@@ -746,6 +753,13 @@ def real_state_line(case, real, q, cal):
         return ",".join("%d.%d" % (mid(real.user[u][1]), u) for u in sorted(ids)), rest
     sws, rsw = users_of(sw, "c07sw")
     dls, rdl = users_of(dl, "c07dl")
+
+    def device_timer_of_running_mode(e):
+        """a mode device's own delay (e.g. a counter's logic_block_timeout) while its mode is up: device-internal, not
+        modelled; once the mode is idle it counts as left behind"""
+        m = re.search(r"@\w+_(m\d)$", str(e[-1]))
+        return bool(m) and m.group(1) in snap and any(snap[m.group(1)][:3])
+    rdl = [e for e in rdl if not device_timer_of_running_mode(e)]
     line += " | sw=" + sws + " | dl=" + dls
     extra = bus + missing + rsw + msw + rdl + mdl
     if extra:
@@ -887,7 +901,7 @@ def corpus():
     c.append({"kind": "modes", "game": False, "modes": {"m1": [200, False, False, "plain"]},
               "hooks": [{"mode": "m1", "phase": "will_stop", "prio": 1, "acts": [["addsw", "m1"]]}],
               "ops": [["start", "m1", None], ["adv", 2], ["stop", "m1"], ["adv", 8], ["hitsw"]]})
-    # known finding: restart from a handler of mode_<n>_stopped
+    # (fixed) restart from a handler of mode_<n>_stopped: the restarted mode used to lose its handlers to the pending callback
     c.append({"kind": "modes", "game": False, "modes": {"m1": [200, False, False, "plain"]},
               "hooks": [{"mode": "m1", "phase": "stopped", "prio": 1, "acts": [["start", "m1"]]}],
               "ops": [["start", "m1", None], ["adv", 2], ["stop", "m1"], ["adv", 8]]})
@@ -897,6 +911,11 @@ def corpus():
         for k in range(5):
             ops += [["ev", "start_m1"], ["addh", "m1"], ["addsw", "m1"], ["delay", "m1", 30], ["adv", 3], ["ev", "stop_m1"], ["adv", 2]]
         c.append({"kind": "modes", "game": game, "modes": {"m1": spec}, "hooks": [], "ops": ops})
+    # D13 (fixed on main): a counter with logic_block_timeout in a non-game mode; the mode stops while the timeout delay
+    # is pending - the delay must die with the mode (it used to fire on the removed block: AttributeError)
+    c.append({"kind": "modes", "game": False, "modes": {"m1": [200, False, False, "timeout"]}, "hooks": [],
+              "ops": [["start", "m1", None], ["adv", 2], ["ev", "cnt_m1"], ["adv", 2], ["stop", "m1"], ["adv", 30],
+                      ["start", "m1", None], ["ev", "cnt_m1"], ["adv", 30], ["ev", "cnt_m1"], ["stop", "m1"], ["adv", 30]]})
     # use_wait_queue mode started by a queue event, stopping held open, a second mode overlapping at the same priority
     c.append({"kind": "modes", "game": False, "modes": {"m1": [200, False, True, "plain"], "m2": [200, False, False, "plain"]},
               "hooks": [{"mode": "m1", "phase": "stopping", "prio": 1, "acts": [["wait", 5]]},
